@@ -247,6 +247,17 @@ def run(ctx):
                     txt = s[:a_] + v_ + s[b_:]
                     if txt not in seen_plain:
                         work.append((txt, d, 'edge-substitution', txt))
+        # ... constants of ANOTHER kind: the cover sentences spell every constant the shortest way (a double-quoted string), so
+        # clauses that insist on a number are never accepted there.  Every `constant` of the derivation spelled as an integer
+        # (and as a string, a float), then, on the all-integer spelling, one at a time as each other kind of constant
+        for txt, ty, _ in grammargen.const_kind_texts(d, grammargen.cover_sentences(d, override={'constant': [grammargen.CONST]}), POOL_SEED):
+            if txt not in seen_plain:
+                work.append((txt, d, 'constant-kind', txt))
+        # ... and two clauses / options / list items of one statement together, in both orders (derivation trees of depth 2, chains of
+        # three clauses for statements; thorough: depth 3 everywhere) at every self-recursive nonterminal of the grammar)
+        for txt, ty, _ in grammargen.pair_cover_texts(ctx, d, depth=3 if thorough else 2.5, seed=POOL_SEED):
+            if txt not in seen_plain:
+                work.append((txt, d, 'pair-cover', txt))
         gen = grammargen.texts(ctx, d, (300 if thorough else 14) if d == 'mindsdb' else (100 if thorough else 5), seed=POOL_SEED)
         for s, ty, _ in gen:
             work.append((s, d, 'grammar-sentence', ' '.join(ty)))
